@@ -202,7 +202,19 @@ def run_one(args):
     t0 = time.time()
     env2 = dict(os.environ, CARGO_TARGET_DIR=os.path.join(d, "ttarget"), CARGO_NET_OFFLINE="true", RUST_BACKTRACE="0")
     try:
-        tr = subprocess.run(["cargo", "test", "--offline", "--workspace", "--no-fail-fast"], cwd=r, env=env2, stdout=subprocess.PIPE, stderr=subprocess.STDOUT, text=True, timeout=900)
+        # own process group, killed as a whole on timeout: a mutant that makes a test spin for ever must not outlive the sweep
+        import signal
+        pr_ = subprocess.Popen(["cargo", "test", "--offline", "--workspace", "--no-fail-fast"], cwd=r, env=env2, stdout=subprocess.PIPE, stderr=subprocess.STDOUT, text=True, start_new_session=True)
+        try:
+            out_, _ = pr_.communicate(timeout=900)
+        except subprocess.TimeoutExpired:
+            os.killpg(pr_.pid, signal.SIGKILL)
+            pr_.communicate()
+            raise
+
+        class tr:       # noqa: N801
+            returncode = pr_.returncode
+            stdout = out_
         passed = tr.returncode == 0
         failing = sorted(set(re.findall(r"^test (\S+) \.\.\. FAILED", tr.stdout, re.M)))[:6]
         if "could not compile" in tr.stdout:
